@@ -4,7 +4,9 @@ import (
 	"crypto/tls"
 	"crypto/x509"
 	"fmt"
+	"net"
 	"sync"
+	"time"
 
 	"github.com/go-ldap/ldap/v3"
 	"github.com/hashicorp/go-hclog"
@@ -89,9 +91,9 @@ func (h *dirHandle) clientTLS() *tls.Config {
 func (h *dirHandle) dial(transport string) (*ldap.Conn, error) {
 	switch transport {
 	case "tls":
-		return ldap.DialURL("ldaps://"+h.addr(), ldap.DialWithTLSConfig(h.clientTLS()))
+		return ldap.DialURL("ldaps://"+h.addr(), ldap.DialWithTLSConfig(h.clientTLS()), ldap.DialWithDialer(&net.Dialer{Timeout: 15 * time.Second}))
 	case "starttls":
-		c, err := ldap.DialURL("ldap://" + h.addr())
+		c, err := ldap.DialURL("ldap://"+h.addr(), ldap.DialWithDialer(&net.Dialer{Timeout: 15 * time.Second}))
 		if err != nil {
 			return nil, err
 		}
@@ -101,7 +103,7 @@ func (h *dirHandle) dial(transport string) (*ldap.Conn, error) {
 		}
 		return c, nil
 	}
-	return ldap.DialURL("ldap://" + h.addr())
+	return ldap.DialURL("ldap://"+h.addr(), ldap.DialWithDialer(&net.Dialer{Timeout: 15 * time.Second}))
 }
 
 // dirFor maps a client transport to the directory mode serving it.
